@@ -42,7 +42,8 @@ def fam_handlers(maxops):
 RANDOM_OPTS = {
     'ncomp': 3, 'shapes': ['plain', 'class'], 'nhandlers': (3, 8), 'prios': [-2, -1, 0, 0, 1, 2, 3],
     'kinds': ['named', 'named', 'catchall', 'global'], 'nnames': 4,
-    'script_ops': ['ret', 'fire', 'fire', 'stop', 'cancel'], 'flags': [0], 'maxfire': 3, 'maxops_script': 4,
+    'script_ops': ['ret', 'fire', 'fire', 'stop', 'stop', 'cancel', 'raise'], 'flags': [0], 'maxfire': 3, 'maxops_script': 4,
+    'p_raise_base': 0.3,
     'eprios': [-2, -1, 0, 0, 1, 2, 3], 'targets': [None, '*', 'a', 'b'], 'p_script': 0.8, 'p_multichannel': 0.3,
     'hist_ops': ['fire', 'fire', 'fire', 'flush', 'tick', 'cancel'], 'histlen': (3, 10), 'ext_names': 3, 'p_attach': 1.0,
     'p_noevent': 0.25, 'p_age': 0.15,
@@ -74,8 +75,28 @@ def nested_flush_cases():
         yield prog, hist + [['flush', 1]]
 
 
+def stop_cases():
+    """stop() in a handler that then leaves by raising (the `try: ... finally: event.stop()` idiom), and stop() in a handler
+    that forwards the very event object it handles to another channel: no handler of lower priority runs for the event"""
+    for how, pstop in [(h, p) for h in ('raise', 'raiseb', 'refire', 'refire-first', 'ret') for p in (2, 1, 0)]:
+        tail = {'raise': [['stop'], ['raise']], 'raiseb': [['stop'], ['raiseb']], 'refire': [['stop'], ['refire', 'b'], ['ret', 7]],
+                'refire-first': [['refire', 'b'], ['stop'], ['ret', 7]], 'ret': [['stop'], ['ret', 7]]}[how]
+        prog = {'comps': {'1': {'chan': 'a'}, '2': {'chan': 'b'}},
+                'handlers': {
+                    '1': _h(1, ['x0'], 3, {'x0': [['ret', 1]]}),
+                    '2': _h(1, ['x0'], pstop, {'x0': tail}),
+                    '3': _h(1, ['x0'], -1, {'x0': [['ret', 3]]}),
+                    '4': _h(1, ['x0'], -2, {'x0': [['fire', {'name': 'x1', 'prio': 0, 'flags': 0, 'ch': None}]]}),
+                    '5': _h(2, ['x0'], 1, {'x0': [['ret', 5]]}),
+                    '6': _h(2, ['x0'], -1, {'x0': [['ret', 6]]}),
+                    '7': _h(1, ['x1'], 0, {'x1': [['ret', 8]]})},
+                'dyn': []}
+        yield prog, [['reg', 2, 1], ['fire', 1, {'name': 'x0', 'prio': 0, 'flags': 0, 'ch': 'a'}], ['flush', 1], ['flush', 1], ['flush', 1]]
+
+
 def gen_random(rnd, quick):
     yield from nested_flush_cases()
+    yield from stop_cases()
     for i in range(300 if quick else 6000):
         opts = FLUSH_OPTS if i % 3 == 2 else MIGRATE_OPTS if i % 7 == 3 else RANDOM_OPTS
         prog = kernelgen.gen_program(rnd, opts)
